@@ -49,8 +49,13 @@ VH_ENTRY vh_readranges() {
     ASSERT(p->m_cols != 0, "accepted: column map allocated");
     for (unsigned g = 0; g < NFG; ++g)
       ASSERT(p->m_cols[g] == 0xffff || p->m_cols[g] < p->m_numColumns, "INV_pass: every glyph maps to no column or to a column of the transition table");
+#ifdef REACH_ACCEPT
+    VH_END();
+#endif
   }
+#ifndef REACH_ACCEPT
   VH_END();
+#endif
 }
 
 // ---- readStates: start states, transition table, per-state rule lists
@@ -79,8 +84,13 @@ VH_ENTRY vh_readstates() {
       ASSERT(st.rules_end - st.rules <= FiniteStateMachine::MAX_RULES, "at most MAX_RULES rules per state");
       for (const RuleEntry *r = st.rules; r + 1 < st.rules_end && r < map + MAPLEN; ++r) ASSERT(!(r[1] < r[0]), "INV_pass: rules of a state sorted by precedence");
     }
+#ifdef REACH_ACCEPT
+    VH_END();
+#endif
   }
+#ifndef REACH_ACCEPT
   VH_END();
+#endif
 }
 
 #ifdef VH_PASS_HEADER
@@ -158,6 +168,66 @@ VH_ENTRY vh_readpass() {
     ASSERT(p->m_numRules || p->m_numCollRuns, "accepted: the pass does something");
   }
 #ifndef REACH_STATES
+  VH_END();
+#endif
+}
+#endif
+
+#ifdef VH_READRULES
+// ---- readRules: rule records, code block offsets and the rule map on arbitrary bytes; the bytecode loader is a stub that asserts its byte
+// range lies inside the code block it was cut from and consumes an arbitrary amount of the program pool it was promised.
+#ifndef NENT
+#define NENT 2
+#endif
+#ifndef RCLEN
+#define RCLEN 2
+#endif
+#ifndef ACLEN
+#define ACLEN 3
+#endif
+#ifndef SORTV
+#define SORTV 2
+#endif
+static const byte *g_rc, *g_ac;
+extern "C" void vh_stub_code_ctor_r(Machine::Code *self, bool is_constraint, const byte *bc_begin, const byte *bc_end, uint8 pre_context, uint16 rule_length,
+                                    const Silf *, const Face *, int pt, byte **out)
+    asm("_ZN9graphite22vm7Machine4CodeC2EbPKhS4_htRKNS_4SilfERKNS_4FaceENS_8passtypeEPPh");
+void vh_stub_code_ctor_r(Machine::Code *self, bool is_constraint, const byte *bc_begin, const byte *bc_end, uint8, uint16 rule_length, const Silf *, const Face *, int, byte **out) {
+  ASSERT(bc_begin <= bc_end && vh_readable(bc_begin, (size_t)(bc_end - bc_begin)), "the bytecode loader is handed a byte range inside the code block");
+  ASSERT(is_constraint ? (bc_begin >= g_rc && bc_end <= g_rc + RCLEN) : (bc_begin >= g_ac && bc_end <= g_ac + ACLEN), "constraint code comes from the constraint block, action code from the action block");
+  memset((void *)self, 0, sizeof *self);
+  self->_constraint = is_constraint;
+  self->_status = nondet_bool() ? Machine::Code::loaded : Machine::Code::missing_return;
+  if (out) {                                   // takes what estimateCodeDataOut promised for this code, or less
+    self->_code = (instr *)*out; *out += 1;        // one byte of the promised pool per code (keeps the final realloc size concrete)
+  }
+}
+VH_ENTRY vh_readrules() {
+  Provider *pr = &g_prov; Face *f = vh_raw_face(pr, true);
+  Silf *silf = vh_new<Silf>(); memset((void *)silf, 0, sizeof(Silf));
+  Pass *p = raw_pass(); p->m_silf = silf;
+  p->m_numRules = NRULES; p->m_minPreCtxt = nondet_u8(); p->m_maxPreCtxt = nondet_u8();
+  uint8_t *rule_map = vh_bytes(2 * NENT), *precontext = vh_bytes(NRULES), *sort_key = vh_bytes(2 * NRULES), *o_constraint = vh_bytes(2 * (NRULES + 1)),
+          *rc = vh_bytes(RCLEN), *o_action = vh_bytes(2 * (NRULES + 1)), *ac = vh_bytes(ACLEN);
+  g_rc = rc; g_ac = ac;
+  for (unsigned r = 0; r < NRULES; ++r) { sort_key[2 * r] = 0; sort_key[2 * r + 1] = (uint8_t)(SORTV + r); }     // rule lengths pinned: they size the program pool
+  // what readPass has established before the call: the announced block lengths are the real ones
+  ASSUME(((o_constraint[2 * NRULES] << 8) | o_constraint[2 * NRULES + 1]) == RCLEN && ((o_action[2 * NRULES] << 8) | o_action[2 * NRULES + 1]) == ACLEN);
+  Error e;
+  uint8_t ptv = nondet_u8(); ASSUME(ptv <= PASS_TYPE_JUSTIFICATION);
+  bool ok = p->readRules(rule_map, NENT, precontext, (const uint16 *)sort_key, (const uint16 *)o_constraint, rc, (const uint16 *)o_action, ac, *f, (passtype)ptv, e);
+  if (ok) {
+    for (unsigned r = 0; r < NRULES; ++r) {
+      const Rule &ru = p->m_rules[r];
+      ASSERT(ru.sort <= 63 && ru.preContext < ru.sort && ru.preContext <= p->m_maxPreCtxt && ru.preContext >= p->m_minPreCtxt, "INV_pass: rule length and pre-context inside the slot-map and pre-context bounds");
+      ASSERT(ru.action != 0 && ru.constraint != 0, "every rule has its two code objects");
+    }
+    for (unsigned i = 0; i < NENT; ++i) ASSERT(p->m_ruleMap[i].rule >= p->m_rules && p->m_ruleMap[i].rule < p->m_rules + NRULES, "INV_pass: rule map entries name rules of this pass");
+#ifdef REACH_ACCEPT      /* vacuity guard: the witness twin must reach an accepting run */
+    VH_END();
+#endif
+  }
+#ifndef REACH_ACCEPT
   VH_END();
 #endif
 }
